@@ -7,6 +7,7 @@ import os
 import nbdime
 import nbdime.diffing.notebooks as dn
 import nbdime.merging.generic as mg
+dn = dn
 from nbdime import diff, diff_notebooks, patch, patch_notebook, merge_notebooks, decide_merge, apply_decisions
 from nbdime.diff_utils import to_diffentry_dicts
 from nbdime.merging.notebooks import decide_notebook_merge
